@@ -21,6 +21,16 @@ for i in range(1, 10):
     if r.returncode:
         print("%s-%d: patch does not apply: %s" % (g, i, r.stderr.decode()[:120])); continue
     alarms = {}
+    if os.environ.get("AUTO") == "1":
+        # the checks anchored in a touched file, plus the cross-cutting ones that pull every module's generators
+        touched = set(l[6:].strip() for l in open(src + "/patch.diff") if l.startswith("+++ b/"))
+        props = [json.loads(l) for l in open("/verif/properties.jsonl")]
+        anchored = set(x for d in props for x in d["anchors"]["files"])
+        sel = set(["C01", "C02", "C03", "C18", "C19"])
+        for d in props:
+            if touched & set(d["anchors"]["files"]) or not (touched & anchored):
+                sel.add(d["id"])
+        checks = sorted(sel)
     for c in checks:
         p = subprocess.run("VERIF_FROZEN=1 VERIF_REPO=%s ./check %s quick" % (wt, c), shell=True, cwd="/verif", stdout=subprocess.PIPE, stderr=subprocess.STDOUT)
         out = p.stdout.decode("utf-8", "replace")
